@@ -161,9 +161,9 @@ func (idx *WorkspaceIndex) addFileIndex(path string, fi *FileIndex) {
 	for _, date := range fi.Dates {
 		idx.dateCounts[date]++
 	}
-	for payee, postings := range fi.PayeeTemplates {
-		idx.payeeTemplates[payee] = postings
-	}
+	// The same rule as after a removal (files in path order, the last one wins): the
+	// result must not depend on the order in which the files were added.
+	idx.restorePayeeTemplates(fi.PayeeTemplates)
 	idx.refreshDerived()
 }
 
